@@ -322,9 +322,12 @@ def parse_T(ans):
 
 def run(ctx):
     rng = ctx.rng
-    n_sys = ctx.scale(1500, 60000)
+    n_sys = ctx.scale(1500, 20000)
+    # further systems are run on the implementation and pre-screened against the (untrusted) Python mirror of the model;
+    # only those on which the mirror disagrees with the implementation are forwarded to the Coq model, which alone decides
+    x_sys = ctx.scale(4500, 60000)
     systems, seen = [], set()
-    while len(systems) < n_sys:
+    while len(systems) < n_sys + x_sys:
         nv, box, goals = gen_system(rng)
         # every variable gets a domain and is labeled, in a random labeling order
         order = list(range(nv))
@@ -347,7 +350,7 @@ def run(ctx):
         jobs.append({"id": "s%d" % i, "consult": USE, "queries": [t[4] for t in systems[i:i + B]], "max_answers": 2, "timeout_ms": 30000})
     # ground instances: two random points of the box per system, every goal; relations also against is/2
     gq = []
-    for si, (nv, box, goals, order, text) in enumerate(systems):
+    for si, (nv, box, goals, order, text) in enumerate(systems[:n_sys]):
         if any(hi < lo for lo, hi in box): continue
         for _ in range(2):
             pt = [rng.randint(lo, hi) for lo, hi in box]
@@ -377,6 +380,7 @@ def run(ctx):
     failures, tie_breaks = [], []
     dist = {"functors": {}, "nvars": {}, "ngoals": {}, "solutions": {"0": 0, "1": 0, "2-5": 0, "6-20": 0, ">20": 0}, "box_points_total": 0,
             "solutions_total": 0, "systems_with_undefined_points": 0, "boolean_position_domain_errors": 0,
+            "prescreened_only": {"agree": 0, "forwarded_to_coq": 0},
             "ground": {"direct": 0, "call": 0, "is": 0, "is_error": 0, "true": 0, "false": 0}}
     nontrivial = set()
     n_obs = 0
@@ -392,12 +396,18 @@ def run(ctx):
         for k, (nv, box, goals, order, text) in enumerate(chunk):
             L = parse_tuples(rs[k], nv)
             pts = list(itertools.product(*[range(box[v][0], box[v][1] + 1) for v in order]))
-            sols, undef = 0, False
+            sols, undef, pysols = 0, False, []
             for p in pts:
                 rho = [0] * nv
                 for v, x in zip(order, p): rho[v] = x
-                if all(holds(g, rho) for g in goals): sols += 1
+                if all(holds(g, rho) for g in goals):
+                    sols += 1; pysols.append(tuple(p))
                 if not undef and any(has_undefined(g, rho) for g in goals): undef = True
+            if i + k >= n_sys:
+                if L == pysols or (L is None and not pysols and bool_vars(goals) and caught_error(rs[k]) is not None):
+                    dist["prescreened_only"]["agree"] += 1
+                    continue
+                dist["prescreened_only"]["forwarded_to_coq"] += 1
             dist["box_points_total"] += len(pts); dist["solutions_total"] += sols
             dist["systems_with_undefined_points"] += 1 if undef else 0
             dist["solutions"]["0" if sols == 0 else "1" if sols == 1 else "2-5" if sols <= 5 else "6-20" if sols <= 20 else ">20"] += 1
@@ -475,7 +485,10 @@ def run(ctx):
                  "over + - * // div mod rem min max ^ abs sign and unary minus (depth <= 2), reified combinations with #\\ #/\\ #\\/ #==> #<== #<==> "
                  "and binary #\\ including Boolean variables and 0/1, and sum/3; domains posted in random order, label/1 on a random permutation "
                  "of the variables; the list of answers must equal the model's list in order. Two random points per system: every goal "
-                 "instantiated at the point, called directly and through call/1, relations also through is/2 + comparison. non-trivial = distinct "
+                 "instantiated at the point, called directly and through call/1, relations also through is/2 + comparison. All of these are compared "
+                 "with the model by vm_compute in Coq (evaluations counts only these); three times as many further systems are pre-screened against "
+                 "a Python mirror of the model and forwarded to Coq only when the mirror disagrees with the implementation "
+                 "(distribution.prescreened_only). non-trivial = distinct "
                  "system mentioning at least 2 variables whose solution set is neither empty nor the whole box"),
         "samples": samples,
         "distribution": dist,
